@@ -1,4 +1,5 @@
 """C03 - String operations agree with a byte-string model and stay in bounds (spec/ByteString*.tla, spec/IntText.tla)."""
+import hashlib
 import json
 import os
 import shutil
@@ -7,16 +8,18 @@ import vlib
 
 META = {
     "engine": "ByteStringOps.tla, ByteString.tla, IntText.tla, MC_ByteStringOps.tla, MC_ByteStringFmt.tla, MC_IntText.tla, "
-              "Trace_ByteString.tla",
+              "MC_ByteStringBig.tla, Trace_ByteString.tla",
     "technique": "TLC enumerates (a) every history of in-place String calls (incl. self-assignment/append of pieces of "
-                 "itself) over boundary-length values, (b) every short string against every short pattern for the pure "
+                 "itself) over boundary-length values and every setup/settle/jump history in which one call asks a string of "
+                 ">= 1 KiB for 1.5x..6x its largest size (or shrinks it), (b) every short string against every short pattern for the pure "
                  "operations, (c) boundary integers on 16-bit limbs, (d) printf-style formats; invariants are the "
                  "property's identities and pairs of independent definitions; every emitted row is replayed on the real "
                  "String under ASan and compared; recorded random executions (long strings, random integers) are "
                  "validated by TLC against the same operators",
     "design_ref": "DESIGN.md section 6, C03",
     "level_text": "TLC explores ByteString.tla exhaustively within the configured bounds (values at the 15/16 inline and "
-                  "20/24 heap boundaries, all aliasing calls) and evaluates ByteStringOps/IntText on complete small "
+                  "20/24 heap boundaries, all aliasing calls; lengths 600..6 000 (thorough 31 000) around the 1 KiB growth-policy "
+                  "switch with single large jumps) and evaluates ByteStringOps/IntText on complete small "
                   "domains; each transition / table row is executed on asl::String under ASan+LSan with the result "
                   "compared and length() == strlen() checked after every call.",
     "level_note": "Bounded (constants in spec/MC_ByteString*.cfg, MC_IntText*.cfg); beyond them seeded random executions "
@@ -30,12 +33,21 @@ def run(ctx):
     rep = vlib.build_harness(lib, "c03_replay", ["c03_replay.cpp"])
     tier = "quick" if ctx.quick else "thorough"
     runs = [] if ctx.quick else [("ByteString", "MC_ByteString_deep", "R/ByteString-deep")]   # one variable, longer histories
+    # large single jumps of strings at and beyond the 1 KiB growth-policy switch (setup / settle / jump histories);
+    # thorough: larger sets, two jumps in a row (deep), two variables (pair)
+    runs += [("MC_ByteStringBig", "MC_ByteStringBig_" + tier, "R/ByteString-big")]
+    if not ctx.quick:
+        runs += [("MC_ByteStringBig", "MC_ByteStringBig_deep", "R/ByteString-big-deep"),
+                 ("MC_ByteStringBig", "MC_ByteStringBig_pair", "R/ByteString-big-pair")]
     for spec, cfg, label in runs + [("ByteString", "MC_ByteString_" + tier, "R/ByteString"),
                              ("MC_ByteStringOps", "MC_ByteStringOps_" + tier, "R/ByteStringOps"),
                              ("MC_IntText", "MC_IntText_" + tier, "R/IntText"),
                              ("MC_ByteStringFmt", "MC_ByteStringFmt_" + tier, "R/ByteStringFmt")]:
         cases = os.path.join(ctx.tmp, "c03-%s.cases" % spec)
-        ctx.model(spec, cfg, emit_to=cases, timeout=ctx.pick(600, 3000), xmx="12g")
+        big = spec == "MC_ByteStringBig"
+        ctx.model(spec, cfg, emit_to=cases, timeout=ctx.pick(600, 3000), xmx="12g", xss="512m" if big else None)
+        if big:
+            _big_coverage(ctx, cases, cfg)
         ctx.replay(rep, cases, label=label, timeout=ctx.pick(900, 5400))
         os.unlink(cases)
     # V: recorded random executions (strings to ~1300 bytes: every capacity doubling and the 1 KiB malloc->realloc switch;
@@ -43,11 +55,18 @@ def run(ctx):
     rec = vlib.build_harness(lib, "c03_record", ["c03_record.cpp"])
     files = ctx.record(rec, ctx.pick(6, 24), ctx.pick(2500, 8000), "V/ByteString", extra_args=["--mode", "0"])
     files += ctx.record(rec, ctx.pick(4, 16), ctx.pick(5000, 25000), "V/IntText", extra_args=["--mode", "1"])
-    ctx.validate_traces("Trace_ByteString", "Trace_ByteString", files, label="V/ByteString", timeout=ctx.pick(600, 3000), xss="512m")
+    # large single jumps aimed at cap(): values to 12 000 bytes (thorough: also to 30 000)
+    files += ctx.record(rec, ctx.pick(6, 16), ctx.pick(300, 1500), "V/ByteString-big", extra_args=["--mode", "2"])
+    if not ctx.quick:
+        files += ctx.record(rec, 8, 1000, "V/ByteString-big3", extra_args=["--mode", "3"])
+    ctx.validate_traces("Trace_ByteString", "Trace_ByteString", files, label="V/ByteString", timeout=ctx.pick(600, 3000), xss="512m",
+                        parallel=vlib.NCPU)
     ctx.exhaustive = True
     ctx.assumptions += [
-        "exhaustive within the constants of spec/MC_ByteString_%s.cfg, MC_ByteStringOps_%s.cfg, MC_IntText_%s.cfg, MC_ByteStringFmt_%s.cfg; "
-        "beyond them only the recorded random executions apply" % (tier, tier, tier, tier),
+        "exhaustive within the constants of spec/MC_ByteString_%s.cfg, MC_ByteStringBig_%s.cfg, MC_ByteStringOps_%s.cfg, MC_IntText_%s.cfg, "
+        "MC_ByteStringFmt_%s.cfg; beyond them only the recorded random executions apply" % (tier, tier, tier, tier, tier),
+        "the large-jump histories (MC_ByteStringBig) have the shape setup / settle / jump; their requests are aimed at the largest "
+        "length a variable has reached, not at the implementation's capacity (storage is not modelled)",
         "byte strings without embedded NUL, non-empty patterns and separators, in-range indices (the property's quantifier)",
         "bytes exposed by resize() beyond the old length are written by the driver before they are read",
         "the way back from the text of an unsigned 64-bit integer is (ULong)toLong() (there is no conversion to ULong); it relies on "
@@ -57,6 +76,56 @@ def run(ctx):
     ]
     ctx.rule = ("one case per transition of the ByteString state graph (history + expected values), per string of the "
                 "operations table, per integer pattern, per format; non-trivial = history with >= 2 calls / non-empty string")
+
+
+# the calls a large-jump run has to end histories with (TLC's coverage sees NextBig as one action)
+BIG_SETTLE = ("appendChar", "clear", "fixAt", "reserve", "appendInt")
+BIG_JUMP = ("assign", "assignVar", "resize", "appendRepeat", "assignRepeat", "appendVar", "appendPiece", "assignConcat", "append",
+            "appendN", "assignN")
+
+
+def _hkey(h):
+    return hashlib.sha1(json.dumps(h, sort_keys=True).encode()).digest()
+
+
+def _big_coverage(ctx, cases, cfg):
+    """Vacuity guard for MC_ByteStringBig: every call kind ends some emitted history, and the histories do contain
+    single calls that multiply the length of a string of >= 1 KiB (measured on the emitted expected values)."""
+    last = {}
+    lens = {}           # history (digest) -> lengths of the variables after it
+    grow15 = grow2 = grow3 = shrink = 0
+    with open(cases) as f:
+        for ln in f:
+            c = json.loads(ln)
+            h = c["hist"]
+            op = h[-1]["op"]
+            last[op] = last.get(op, 0) + 1
+            lens[_hkey(h)] = [len(v) for v in c["exp"]]
+    with open(cases) as f:
+        for ln in f:
+            c = json.loads(ln)
+            h = c["hist"]
+            if len(h) < 2:
+                continue
+            before = lens.get(_hkey(h[:-1]))
+            if before is None:
+                continue
+            x = h[-1]["x"]
+            n0, n1 = before[x - 1], len(c["exp"][x - 1])
+            if n0 >= 1023:
+                grow15 += 2 * n1 > 3 * n0
+                grow2 += n1 > 2 * n0
+                grow3 += n1 >= 3 * n0
+                shrink += n1 < 1023
+    settles = not cfg.endswith("_deep")        # the deep configuration goes from the setup straight to two jumps
+    missing = [o for o in BIG_JUMP + (BIG_SETTLE if settles else ()) if o not in last]
+    if missing:
+        raise vlib.HarnessError("%s: vacuous run, no history ends with %s" % (cfg, missing))
+    if not (grow15 and grow2 and grow3 and (shrink or not settles)):
+        raise vlib.HarnessError("%s: vacuous run, single calls on strings of >= 1023 bytes: %d grow > 1.5x, %d > 2x, %d >= 3x, %d shrink "
+                                "below 1023" % (cfg, grow15, grow2, grow3, shrink))
+    ctx.extra.setdefault("big_jumps", {})[cfg] = {"calls_growing_a_1KiB_string_more_than_1.5x": grow15, "more_than_2x": grow2,
+                                                  "3x_or_more": grow3, "shrinking_below_1KiB": shrink, "last_call_kinds": last}
 
 
 def _replay_recorded(path, lib, hname, hsrcs, trace_spec, cfg):
